@@ -19,6 +19,9 @@ CHECKS = {
     'C10': dict(category='proof', design_ref='DESIGN.md §3 C10', technique=TECH + ' incl. regex-to-window-predicate compilation; labelled bounded digest oracle',
                 text='For all strings of all lengths: each of the 36 regexes of the real EXPASY_RULES dict matches exactly where the ExPASy rule (written as residue sets for P4..P2\') cleaves and consumes one residue; the EXPASY_RULES2 range patterns pair one-to-one and in order with the sites (the inconsistent-sites error is unreachable); iter_enzymatic_cleave_sites yields all rule sites minus exception sites; the six parameters reaching create_unique_peptide_pool in generateIndex/updateIndex/load_references equal the fields of the CleavageParams the pool is registered, looked up and used with.',
                 note='Alphabet A-Z and * assumed; re.finditer / regex overlapped=True semantics assumed (cross-checked natively). The miscleavage loops of enzymatic_cleave and create_unique_peptide_pool are covered by the bounded digest / pool oracle only (evidence: coverage.bounded), not proved.'),
+    'C19': dict(category='proof', design_ref='DESIGN.md §3 C19', technique=TECH,
+                text='The real VariantPeptidePool.filter is executed symbolically for all pools, headers, expression tables, cutoffs, flag combinations, denylists, miscleavage ranges and enzymes: an entry is appended to the kept list iff it satisfies the rule transcribed from the property statement, a peptide is kept iff some entry is kept and its site count is in range, sequences are never assigned; monotonicity in the cutoff and the miscleavage range are lemmas over that contract.',
+                note='Header parsing (from_variant_peptide_minimal, str(entry)) and the site count are assumed contracts; idempotence on real headers and the CLI table loaders are covered by the bounded native check only.'),
 }
 
 _PENDING = 'contracts for this property are not built yet in this revision (planned: see DESIGN.md §3); not claimed until they discharge'
